@@ -115,16 +115,25 @@ let pure = ref "-" and order = ref "-" and cli : string option ref = ref None
 
 let n_text_wild = ref 0
 
+(* MISMATCH / PFAIL (real, parser-produced files: a concrete failing input) and DISAGREE (synthetic files
+   only) have separate print budgets, so that disagreements on synthetic files can never crowd out a
+   concrete replay. *)
+let n_real_printed = ref 0 and n_dis_printed = ref 0
+
+let mismatch obs expected =
+  incr n_mismatch;
+  if !n_real_printed < 50 then begin incr n_real_printed; Printf.printf "MISMATCH %s || model=%s\n" obs expected end
+
 let report synthetic obs expected =
   if synthetic then begin
     incr n_mismatch;
-    if !n_mismatch <= 50 then Printf.printf "DISAGREE %s || model=%s\n" obs expected
+    if !n_dis_printed < 10 then begin incr n_dis_printed; Printf.printf "DISAGREE %s || model=%s\n" obs expected end
   end
   else mismatch obs expected
 
 let pfail obs clause =
   incr n_mismatch;
-  if !n_mismatch <= 50 then Printf.printf "PFAIL %s || clause=%s\n" obs clause
+  if !n_real_printed < 50 then begin incr n_real_printed; Printf.printf "PFAIL %s || clause=%s\n" obs clause end
 
 let render_model (ds : diagnostic list) : string =
   Printf.sprintf "ok %x%s" (List.length ds)
